@@ -210,12 +210,12 @@ class ReedMullerCodeEncoder(LinearBlockCodeEncoder):
                 # Get complement set (indices not in set_I)
                 set_E = torch.tensor([i for i in range(m) if i not in indices], dtype=torch.int64)
 
-                # Calculate the components
-                set_S = torch.matmul(binary_vectors[ell], torch.pow(2, set_I))
-                set_Q = torch.matmul(binary_vectors[m - ell], torch.pow(2, set_E))
+                # Calculate the components (evaluation vector i toggles position bit m-1-i)
+                set_S = torch.matmul(binary_vectors[ell], torch.pow(2, m - 1 - set_I))
+                set_Q = torch.matmul(binary_vectors[m - ell], torch.pow(2, m - 1 - set_E))
 
-                # Form the partition
-                partition = set_S.unsqueeze(1) + set_Q.unsqueeze(0)
+                # Form the partition: one row per coset, used as one check sum
+                partition = set_S.unsqueeze(0) + set_Q.unsqueeze(1)
                 reed_partitions.append(partition)
 
         return reed_partitions
